@@ -60,10 +60,10 @@ def _pr(x):
 
 
 def diff_sweep(ctx, label, units, what='compiled program disagrees with the reference semantics',
-               fuel=400_000, extra=None, stats=None):
+               fuel=400_000, extra=None, stats=None, monitor=False):
     """run units; every disagreement is a violation.  extra(src, res) may add checks."""
     st = stats or Stats()
-    results = diffrun.run_units(units, fuel=fuel)
+    results = diffrun.run_units(units, fuel=fuel, watch_labels='monitor' if monitor else None)
     nviol = 0
     for (src, _), rs in zip(units, results):
         st.note_features(src)
@@ -106,6 +106,11 @@ def halts_extra(ctx):
             if ref_ok:
                 ctx.violate('the emitted machine halts on its committed timeline (vm_sound: OHalt is a proof of Halts)',
                             cls='committed_halt', **describe(src, res))
+        if r.status == 'ran' and r.kind == 'STOP' and not res.cfg.unchecked:
+            ref_ok = res.ref is None or res.ref[0] not in ('uninit',)
+            if ref_ok:
+                ctx.violate('un-entitled memory access in a checked build (entitlement monitor coq/Sphinx/Monitor.v: direct operand into the stack, computed access into the registers / across regions, frame access outside [ap, fp), array access above ap)',
+                            cls='unentitled_access', access_pc=r.pc, **describe(src, res))
         if r.status == 'ran' and r.kind == 'FAULT' and not res.cfg.unchecked:
             ref_ok = res.ref is None or res.ref[0] not in ('uninit',)
             if ref_ok:
@@ -154,6 +159,8 @@ def c16_fallthrough(ctx):
 
 # ---------------------------------------------------------------- byte-granular stack boundary
 FILL_BODIES = [
+    ('', 'int[] v = [4369, 8738, 13107, (b + 1) * ((b + 2) * ((b + 3) * (b + 4)))]; write(v[0] is byte); write(v[1] is byte); write(v[2] is byte); write(v[3] is byte);'),
+    ('int g(int p, int q, int r) { return p + q * r; }\n', 'byte[] v = [\'a\', \'b\', \'c\', ((g(b, 2, 3) + 1) * (b + g(1, b, 2))) is byte]; write(v);'),
     ('', 'byte[] arr = [\'w\', \'x\', \'y\', \'z\']; byte c = \'a\'; write(arr[0]); write(arr[1]); write(arr[2]); write(arr[3]); write(c);'),
     ('', 'int[] v = [a, b]; bool t = b > 1; byte c = \'k\'; write(c); if (t) { write(\'T\'); } write(v[1] is byte); write(v[0] is byte);'),
     ('empty h(int x) { byte[] loc = [\'l\', \'m\', \'n\']; bool e = x > 0; byte d = \'d\'; loc[1] = \'7\'; write(d); write(loc[2]); write(loc[1]); write(loc[0]); }\n', 'h(b); h(a);'),
@@ -187,7 +194,7 @@ def fill_sweep(ctx, bodies, ws, stacks, label='byte-granular stack boundary'):
                         cfgs.append(Cfg((str(n), str(a), bval), w, S, False))
                         cfgs.append(Cfg((str(n), str(a), bval), w, 400, False))
                     units.append((src, cfgs))
-    results = diffrun.run_units(units, want_ref=False)
+    results = diffrun.run_units(units, want_ref=False, watch_labels='monitor')
     total = 0
     nthr = 0
     distinct = set()
@@ -208,7 +215,7 @@ def fill_sweep(ctx, bodies, ws, stacks, label='byte-granular stack boundary'):
             if ts[0] == 'error' and ts[1][-2:] == ['stack_overflow', 'error'] and tb[2].startswith(ts[2]) and tb[1][:len(ts[1]) - 2] == ts[1][:-2]:
                 seen_of = True
                 continue
-            kind = 'machine_fault' if ts[0] in ('fault', 'halt') else 'stack_boundary'
+            kind = 'machine_fault' if ts[0] in ('fault', 'halt') else 'unentitled_access' if ts[0] == 'stop' else 'stack_boundary'
             ctx.violate('with the stack filled to the byte, the run neither equals the generous-stack run nor ends in stack_overflow after a prefix of it (silent corruption / out-of-region access)',
                         cls=kind, source=src, args=list(small.cfg.args), w=small.cfg.w, stack=small.cfg.stack,
                         generous=[tb[0], tb[1], tb[2][:200].decode('latin1')], got=[ts[0], ts[1], ts[2][:200].decode('latin1')], detail=small.run.detail)
